@@ -72,7 +72,8 @@ def gen_configs(tier, rng):
                  mu=rng.random() < 0.3, eps=rng.random() < 0.3,
                  stretch=rng.choice([0.0, 0.2, 0.5]),
                  src=rng.choice(["point", "random"]),
-                 amp=rng.choice([1.0, 1.0, 1e-6, 1e4]),
+                 amp=rng.choice([1.0, 1.0, 1.0, 1e-6, 1e4, 1e-17, 1e-60,
+                                 1e-120]),
                  ret_info=rng.random() < 0.8,
                  always_return=rng.random() < 0.2,
                  seed=rng.randrange(10**6))
